@@ -239,7 +239,11 @@ func (c *httpsCloner) putKV(kv dns.SVCBKeyValue) {
 // putIPs returns the underlying arrays of ips into c if possible.
 func (c *httpsCloner) putIPs(ips []net.IP) {
 	for _, ip := range ips {
-		if cap(ip) >= 16 {
+		// Only take arrays of exactly the size that this cloner allocates.  The
+		// hints of a message that has been unpacked from the wire are subslices
+		// of one larger buffer; putting a 16-byte window for each of them into
+		// the pool would hand out overlapping arrays to later clones.
+		if cap(ip) == 16 {
 			c.ip.Put((*[16]byte)(ip[:16]))
 		}
 	}
